@@ -184,6 +184,7 @@ type discObs struct {
 	queued    []hotline.Transaction
 	pan       any
 	cfgBefore []string
+	lateUntil time.Time // until when an expected but late disconnect is waited for (shared by the batch)
 }
 
 const targetIP = "10.7.7.7"
@@ -224,8 +225,10 @@ func (o *discObs) finish(c *Case) {
 	}
 	// the delayed disconnect fires 1 s after the call; on a loaded machine give an expected one more time
 	// (an unexpected one is looked for after the fixed 1.4 s only: lateness can hide it, never invent it)
+	// (ONE deadline for all sub-cases of a family case — `lateUntil`, set when the batch was started: on a tree where
+	// the expected disconnects never happen, waiting 30 s for each of ~150 sub-cases in turn made the run take hours)
 	if bitOf(dc.requester, 22) && !bitOf(dc.target, 23) && !o.tgConn.IsClosed() {
-		waitFor(30*time.Second, o.tgConn.IsClosed)
+		waitFor(time.Until(o.lateUntil), o.tgConn.IsClosed)
 	}
 	late := o.ts.TakeOutbox()
 	closed := o.tgConn.IsClosed()
@@ -711,6 +714,7 @@ func init() {
 			}
 			wg.Wait()
 			time.Sleep(1400 * time.Millisecond)
+			lateUntil := time.Now().Add(30 * time.Second) // one deadline for the whole batch (see discObs.lateUntil)
 			for _, sc := range scens {
 				if sc.ts == nil {
 					c.Disagree("fixture", "test server could not be built")
@@ -733,7 +737,7 @@ func init() {
 				}
 				ip := fmt.Sprintf("10.7.7.%d", sc.k+1)
 				if !sc.protect && !sc.conns[sc.k].IsClosed() {
-					waitFor(30*time.Second, sc.conns[sc.k].IsClosed)
+					waitFor(time.Until(lateUntil), sc.conns[sc.k].IsClosed)
 				}
 				closed := sc.conns[sc.k].IsClosed()
 				listed := sc.ts.Srv.ClientMgr.Get(sc.sess[sc.k].ID) != nil
@@ -896,11 +900,13 @@ func init() {
 			}
 			wg.Wait()
 			time.Sleep(1400 * time.Millisecond)
+			lateUntil := time.Now().Add(30 * time.Second)
 			for i, o := range obs {
 				if o == nil {
 					c.Disagree("fixture", "test server could not be built")
 					continue
 				}
+				o.lateUntil = lateUntil
 				resetNotes(c)
 				c.Note("case", i)
 				o.finish(c)
